@@ -18,7 +18,7 @@ out = ["# Seeded changes (written by independent sub-agents that saw only the pr
        "",
        "| change | what (site) | needs to manifest | owning check: exit / first signature | also caught by |",
        "|---|---|---|---|---|"]
-for d in sorted((HOME / "seeded").glob("C*-[A-L]")):
+for d in sorted((HOME / "seeded").glob("C*-[A-Z]")):
     m = json.loads((d / "meta.json").read_text())
     own = d.name.split("-")[0]
     r = rows.get(d.name, {})
